@@ -194,7 +194,10 @@ impl TransformerContext {
 
         // TODO: move following to element::bbox() ?
         if el.name == "use" || el.name == "reuse" {
-            // assumes el has already had position & attributes resolved
+            if el.has_pending_geometry() {
+                // registered early but not positioned yet: referrers must wait and be retried
+                return Ok(None);
+            }
             let translate_x = el.get_attr("x");
             let translate_y = el.get_attr("y");
             if translate_x.is_some() || translate_y.is_some() {
